@@ -52,7 +52,7 @@ def run(chk: harness.Check):
         "matching public Metadata accessor must contain the same function while the accessor reads the same key constant; process_frontmatter and "
         "metadata() call check_std_entry with self.converter and store its Servings in content.data. D2: integer arithmetic inventory restricted to the "
         "metadata module. D3: in value_as_servings no order-changing or element-removing Vec method is applied to the vector that is returned, and every "
-        "dedup/windows test runs on a vector that was sorted first. D5: nothing reachable from check_std_entry is one of the error-discarding accessors (value_as_*(..).ok()). D4: value_as_tags returns a vector it fills by pushes that lie under the false outcomes of is_empty() and contains(). Necessary conditions: what the parsers accept is not decided.")
+        "dedup/windows test runs on a vector that was sorted first. D6: the number of a number-unit pair is cut by find(|c| !c.is_ascii_digit() && c != '.'). D5: nothing reachable from check_std_entry is one of the error-discarding accessors (value_as_*(..).ok()). D4: value_as_tags returns a vector it fills by pushes that lie under the false outcomes of is_empty() and contains(). Necessary conditions: what the parsers accept is not decided.")
     chk.trusted = ["rustc MIR, resolved callees", "tables/narrow_arith.toml"]
     chk.analysed = {"facts": th}
     d1_siblings(chk, F)
@@ -62,6 +62,43 @@ def run(chk: harness.Check):
     d3_servings(chk, F)
     d4_tags(chk, F)
     d5_strict(chk, F)
+    d6_number_part(chk, F)
+
+
+def d6_number_part(chk, F):
+    """In a number-unit pair the number is the leading run of ASCII digits and '.': the boundary that parse_time_with_units
+    hands to split_at comes from `find` with a predicate that is exactly "not an ASCII digit and not '.'". (f64::from_str alone
+    accepts signs, exponents, `inf` and `nan`; this predicate is what keeps `2h -30min` or `1e3min` out.)"""
+    fs = [g for g in F.find("metadata::parse_time_with_units") if not g.is_closure()]
+    if len(fs) != 1:
+        chk.fail("anchor-missing", "parse_time_with_units", "", "anchor-missing: metadata::parse_time_with_units not found")
+        return
+    f = fs[0]
+    sa = calls_to(f, "<impl str>::split_at")
+    chk.floor("C13.D6-number-part", "split_at calls", len(sa), 1, f"{f.file}:{f.line}")
+    for b, t in sa:
+        mid = arg_expr(f, t, 1)
+        finds = [n for n in walk(mid) if n[0] == "call" and n[1].endswith("<impl str>::find")]
+        clos = []
+        for n in finds:
+            for a in n[2]:
+                for m in walk(a):
+                    if m[0] == "agg" and m[1] == "closure":
+                        clos.append(m[2])
+        ok = False
+        why = f"the split position is {full(mid)[:80]}"
+        if len(clos) == 1 and clos[0] in F.funcs:
+            g = F.funcs[clos[0]]
+            calls = [(callee_key(tt) or "").rsplit("::", 1)[-1] for _, tt in g.calls()]
+            cmps = [(st["rv"]["op"], (st["rv"]["r"].get("const") or {}).get("char")) for _, _, st in g.iter_stmts()
+                    if st["k"] == "assign" and st["rv"]["k"] == "bin" and st["rv"]["op"] in ("Ne", "Eq")]
+            nots = sum(1 for _, _, st in g.iter_stmts() if st["k"] == "assign" and st["rv"]["k"] == "un" and st["rv"]["op"] == "Not")
+            # `!c.is_ascii_digit() && c != '.'`  or  `!(c.is_ascii_digit() || c == '.')`
+            ok = calls == ["is_ascii_digit"] and (cmps == [("Ne", ".")] or (cmps == [("Eq", ".")] and nots >= 1))
+            why = f"the boundary predicate calls {calls} and compares {cmps}"
+        chk.expect(ok, "C13.D6-number-part", "parse_time_with_units|boundary predicate", f.where(b),
+                   "the number part of a number-unit pair is no longer cut at the first character that is neither an ASCII digit nor '.': " + why +
+                   " — signed or exponent forms would be read as numbers", sample=f"{f.where(b)}: split_at(find(|c| !c.is_ascii_digit() && c != '.'))")
 
 
 def d5_strict(chk, F):
